@@ -574,7 +574,7 @@ def main(argv):
     opts = json.loads(argv[3]) if len(argv) > 3 else {}
     oid = opts.get("oid", "")
     names = list(OPS)
-    mine = [n for n in names if n == target or OPS[n][3] in oid or OPS[n][3] in target]
+    mine = [target] if target in names else [n for n in names if OPS[n][3] in oid or OPS[n][3] in target]
     if target in ("C18", "C19"):
         mine = [n for n in names if OPS[n][4] == target]
     order = mine if (target != "all" and mine) else names
